@@ -21,6 +21,16 @@ defect of Beam._modified belongs to C01).  Monitors, all on Beam.density / Singl
                 grid cell holding a kink gets the first-order allowance step*|jump|/2 + step^2 max|a'| (x KINK_FACTOR 4;
                 + step*|jump|/4 interpolation term near a kink) - no alignment of kinks with grid nodes is assumed.
                 The jump term is attained when a discontinuity sits next to a node: margin < 1/KINK_FACTOR.
+  configuration routes : every case reaches its final configuration (before the first density evaluation) either the
+                canonical way (attenuator parameters through the constructor, Beam attributes set once) or with one
+                parameter - or all of them - through the other route: clamp_sigma / step / clamp_to_zero constructed
+                with a decoy and assigned through the attribute before or after the attenuator is attached (clamp_to_zero
+                is constructor-only: counted as a skip), Beam sigma / divergences / length / energy / power /
+                temperature / element assigned a decoy first or assigned early (before atomic data, plasma and
+                attenuator are attached).  The same oracles judge every route; keys of non-canonical cases end in
+                "@<parameter>:<route>".  clamp_sigma covers 0.5..8 incl. non-integers.
+  clamp_radius: with clamping on, the zero / non-zero transition is located by bisection along 4 azimuths at 3 z and
+                must sit at normalised radius clamp_sigma (rtol 1e-10).
   envelope    : normalised second moments of the cross-section = sigma_x(z)^2, sigma_y(z)^2 (documented envelope,
                 truncated-Gaussian factor when clamping is on).  Judged first: the quadrature nodes follow the documented
                 envelope, so when it fails the z-dependence of the flux is skipped for that case (not attributable).
